@@ -35,7 +35,10 @@ enum {
 	FM_LOOSECHAIN = 256, // unreferenced bhkCollisionObject -> bhkRigidBody -> bhkBoxShape chain, stored children first
 	FM_SHAPEEXTRA = 512,  // NiStringExtraData assigned to the shape itself (listed before any tangent-space extra data)
 	FM_ROOT1 = 1024,      // with FM_LOOSE: the loose block is moved to index 0 and the root node to index 1
-	FM_SHAREDCOLL = 2048  // with FM_COLL: a second node references the same collision object
+	FM_SHAREDCOLL = 2048, // with FM_COLL: a second node references the same collision object
+	FM_SHADERCTRL = 4096, // chain of two float controllers on the shape's lighting shader (SK/SSE/FO4)
+	FM_BONETREE = 8192,   // with FM_SKIN: Bone1 is a child of Bone0 instead of the root
+	FM_LEGACYSHAPE = 16384 // SSE/FO4 file that still contains NiTriShape geometry (built as Skyrim LE, then re-versioned)
 };
 
 struct FmModel {
@@ -63,12 +66,12 @@ static inline void fm_geometry(std::vector<Vector3>& verts, std::vector<Triangle
 	}
 }
 
-static inline void fm_skin(NifFile& nif, NiShape* shape, const char* shapeName, int nv) {
+static inline void fm_skin(NifFile& nif, NiShape* shape, const char* shapeName, int nv, bool boneTree = false) {
 	MatTransform t;
 	nif.CreateSkinning(shape);
 	std::vector<int> bones;
 	NiNode* b0 = nif.AddNode("Bone0", t);
-	NiNode* b1 = nif.AddNode("Bone1", t);
+	NiNode* b1 = boneTree ? nif.AddNode("Bone1", t, b0) : nif.AddNode("Bone1", t);
 	bones.push_back(nif.GetBlockID(b0));
 	bones.push_back(nif.GetBlockID(b1));
 	nif.SetShapeBoneIDList(shape, bones);
@@ -90,7 +93,8 @@ static inline void fm_skin(NifFile& nif, NiShape* shape, const char* shapeName, 
 
 static inline FmModel fm_build(NifFile& nif, int ver, int feat) {
 	FmModel m;
-	nif.Create(fm_version(ver));
+	bool legacy = (feat & FM_LEGACYSHAPE) && (ver == FM_SSE || ver == FM_FO4);
+	nif.Create(fm_version(legacy ? (int) FM_SK : ver));
 	MatTransform t;
 	std::vector<Vector3> verts, norms;
 	std::vector<Triangle> tris;
@@ -98,7 +102,7 @@ static inline FmModel fm_build(NifFile& nif, int ver, int feat) {
 	fm_geometry(verts, tris, uvs, norms, feat & FM_SYMPOS);
 	m.shape = nif.CreateShapeFromData("Shape", &verts, &tris, &uvs, &norms);
 	if (feat & FM_SKIN)
-		fm_skin(nif, m.shape, "Shape", 4);
+		fm_skin(nif, m.shape, "Shape", 4, (feat & FM_BONETREE) != 0);
 	else
 		nif.AddNode("Bone0", t);
 	if (feat & FM_SHAPE2) {
@@ -154,6 +158,19 @@ static inline FmModel fm_build(NifFile& nif, int ver, int feat) {
 		col->bodyRef.index = bodyId;
 		hdr.AddBlock(std::move(colS));
 	}
+	if (feat & FM_SHADERCTRL) {
+		if (auto ls = dynamic_cast<BSLightingShaderProperty*>(nif.GetShader(m.shape))) {
+			uint32_t shaderId = nif.GetBlockID(ls);
+			auto [c2S, c2] = nifly::make_unique<BSLightingShaderPropertyFloatController>();
+			auto [c1S, c1] = nifly::make_unique<BSLightingShaderPropertyFloatController>();
+			c2->typeOfControlledVariable = 2;
+			c2->targetRef.index = shaderId;
+			c1->typeOfControlledVariable = 1;
+			c1->targetRef.index = shaderId;
+			c1->nextControllerRef.index = hdr.AddBlock(std::move(c2S));
+			ls->controllerRef.index = hdr.AddBlock(std::move(c1S));
+		}
+	}
 	if (feat & FM_SHAPEEXTRA) {
 		auto sd = std::make_unique<NiStringExtraData>();
 		sd->name.get() = "ShapeNote";
@@ -180,6 +197,8 @@ static inline FmModel fm_build(NifFile& nif, int ver, int feat) {
 			hdr.SetBlockOrder(order);
 		}
 	}
+	if (legacy)
+		hdr.SetVersion(fm_version(ver));
 	return m;
 }
 
